@@ -149,7 +149,7 @@ func retrySwitchTable(rel, fn, leanName string) func() string {
 		fd := mustFunc(rel, fn)
 		ss := findStmts(fd, func(s ast.Stmt) bool {
 			sw, ok := s.(*ast.SwitchStmt)
-			return ok && sw.Tag != nil && src(sw.Tag) == "status.Code(err)"
+			return ok && sw.Tag != nil && strings.HasPrefix(src(sw.Tag), "status.Code(")
 		})
 		if len(ss) != 1 {
 			panic(bail{fmt.Sprintf("%s: expected one switch status.Code(err) in %s, found %d", rel, fn, len(ss))})
@@ -296,6 +296,15 @@ func mentionsSelector(rel, fn, recv string, names []string, leanName, doc string
 	return func() string {
 		fd := mustFunc(rel, fn)
 		found := false
+		// the response variable is whatever the AddSequencedLeaves call's first result is assigned to
+		ast.Inspect(fd.Body, func(n ast.Node) bool {
+			if a, ok := n.(*ast.AssignStmt); ok && len(a.Rhs) == 1 && len(a.Lhs) >= 1 && strings.HasSuffix(callName(a.Rhs[0]), ".AddSequencedLeaves") {
+				if id, ok := a.Lhs[0].(*ast.Ident); ok {
+					recv = id.Name
+				}
+			}
+			return true
+		})
 		ast.Inspect(fd.Body, func(n ast.Node) bool {
 			if se, ok := n.(*ast.SelectorExpr); ok {
 				if id, ok := se.X.(*ast.Ident); ok && id.Name == recv {
@@ -360,6 +369,14 @@ func topLevelIfConds(rel, fn, leanName string) func() string {
 			switch x := st.(type) {
 			case *ast.IfStmt:
 				rows = append(rows, "if "+src(x.Cond))
+			case *ast.SwitchStmt: // a tagless switch is a chain of ifs
+				if x.Tag == nil {
+					for _, c := range x.Body.List {
+						for _, e := range c.(*ast.CaseClause).List {
+							rows = append(rows, "if "+src(e))
+						}
+					}
+				}
 			case *ast.ReturnStmt:
 				rows = append(rows, src(x))
 			}
@@ -383,10 +400,28 @@ func backoffLiteral(rel, fn, prefix string) func() string {
 			panic(bail{fmt.Sprintf("%s: expected one backoff.Backoff literal in %s, found %d", rel, fn, len(lits))})
 		}
 		vals := map[string]string{}
+		consts := map[string]ast.Expr{} // package-level constants of the file
+		for _, d := range parseFile(rp(rel)).Decls {
+			if gd, ok := d.(*ast.GenDecl); ok && gd.Tok == token.CONST {
+				for _, sp := range gd.Specs {
+					vs := sp.(*ast.ValueSpec)
+					for i, n := range vs.Names {
+						if i < len(vs.Values) {
+							consts[n.Name] = vs.Values[i]
+						}
+					}
+				}
+			}
+		}
 		for _, el := range lits[0].Elts {
 			kv, ok := el.(*ast.KeyValueExpr)
 			if !ok {
 				panic(bail{fmt.Sprintf("%s: unkeyed backoff.Backoff literal", rel)})
+			}
+			if id, ok := kv.Value.(*ast.Ident); ok {
+				if v, ok := consts[id.Name]; ok {
+					kv = &ast.KeyValueExpr{Key: kv.Key, Value: v}
+				}
 			}
 			k := src(kv.Key)
 			switch k {
@@ -473,10 +508,8 @@ func init() {
 	i64 := Spec{Kind: "i64", Ignore: ign, Calls: map[string]string{"min": "min64"}}
 	register(genFile{name: "Scan", imports: []string{"CTV.Basic.I64"}, units: []unit{
 		{"min", funcKernel(f, "min", "min64", "(a_ b_ : Int)", "Int", Spec{Kind: "i64"})},
-		{"genRanges.loop", forCondKernel(f, "Fetcher.genRanges", []string{"start < end"}, "genRangesMore", "(start_ end_ : Int) (continuous : Bool)",
+		{"genRanges.action", loopAction(f, "Fetcher.genRanges", "ranges", "updateSTH", "genRangesAction", "(start_ end_ : Int) (continuous : Bool)",
 			Spec{Kind: "i64", Repl: map[string]string{"f.opts.Continuous": "continuous"}})},
-		{"genRanges.atEnd", condKernel(f, "Fetcher.genRanges", []string{"start", "end"}, "genRangesAtEnd", "(start_ end_ : Int)", i64)},
-		{"genRanges.atEndContinues", ifEndsWithContinue(f, "Fetcher.genRanges", []string{"start", "end"}, "genRangesAtEndContinues")},
 		{"genRanges.batchEnd", assignKernel(f, "Fetcher.genRanges", "batchEnd", "genRangesBatchEnd", "(start_ end_ batch_ : Int)", "Int", i64)},
 		{"genRanges.next", assignKernel(f, "Fetcher.genRanges", "next", "genRangesNext", "(start_ batchEnd_ : Int)", "Int × Int", i64)},
 		{"genRanges.advance", assignKernel(f, "Fetcher.genRanges", "start", "genRangesAdvance", "(batchEnd_ : Int)", "Int", i64)},
@@ -484,7 +517,7 @@ func init() {
 			Spec{Kind: "i64", Repl: map[string]string{"f.opts.BatchSize": "batchSize"}})},
 		{"runWorker.loop", forCondKernel(f, "Fetcher.runWorker", []string{"r.start <= r.end"}, "workerMore", "(rstart rend : Int)",
 			Spec{Kind: "i64", Repl: map[string]string{"r.start": "rstart", "r.end": "rend"}})},
-		{"runWorker.request", callArgsKernel(f, "Fetcher.runWorker", "f.client.GetRawEntries", 1, 2, "workerRequest", "(rstart rend : Int)", "Int × Int",
+		{"runWorker.request", callArgsAnywhere(f, "Fetcher.runWorker", ".client.GetRawEntries", 1, 2, "r", -1, "workerRequest", "(rstart rend : Int)", "Int × Int",
 			Spec{Kind: "i64", Repl: map[string]string{"r.start": "rstart", "r.end": "rend"}})},
 		{"runWorker.advance", opAssignKernel(f, "Fetcher.runWorker", "r.start", "workerAdvance", "(rstart n : Int)", "Int",
 			Spec{Kind: "i64", Repl: map[string]string{"r.start": "rstart", "len(resp.Entries)": "n"}})},
@@ -496,18 +529,18 @@ func init() {
 			Spec{Kind: "u64", Repl: map[string]string{"f.opts.EndIndex": "endIndex"}})},
 		{"updateSTH.targetSize", assignKernel(f, "Fetcher.updateSTH", "targetSize", "updateSTHTargetSize", "(lastSize_ batchSize : Int)", "Int",
 			Spec{Kind: "u64", Repl: map[string]string{"f.opts.BatchSize": "batchSize"}})},
-		{"updateSTH.reject", condKernel(f, "Fetcher.updateSTH", []string{"sth.TreeSize <= lastSize"}, "updateSTHRejects", "(treeSize lastSize_ targetSize_ : Int) (quick_ : Bool)",
+		{"updateSTH.reject", guardKernel(f, "Fetcher.updateSTH", []string{"sth.TreeSize <= lastSize"}, "updateSTHRejects", "(treeSize lastSize_ targetSize_ : Int) (quick_ : Bool)",
 			Spec{Kind: "u64", Repl: map[string]string{"sth.TreeSize": "treeSize"}})},
 		{"updateSTH.newEnd", assignKernel(f, "Fetcher.updateSTH", "f.opts.EndIndex", "updateSTHNewEnd", "(treeSize : Int)", "Int",
 			Spec{Kind: "i64", Repl: map[string]string{"sth.TreeSize": "treeSize"}, Vars: map[string]string{"f.opts.EndIndex": "endIndex"}})},
-		{"ScanLog.flatten", keyedFieldKernel("scanner/scanner.go", "Scanner.ScanLog", "entryInfo", "index", "flattenIndex", "(bStart i_ : Int)", "Int",
+		{"ScanLog.flatten", fieldAnywhere("scanner/scanner.go", "Scanner.ScanLog", "entryInfo", "index", "", 0, "flattenIndex", "(bStart i_ : Int)", "Int",
 			Spec{Kind: "i64", Repl: map[string]string{"b.Start": "bStart"}})},
 	}})
 
 	m := "trillian/migrillian/core/trillian.go"
 	c := "trillian/migrillian/core/controller.go"
 	register(genFile{name: "Migrate", imports: []string{"CTV.Basic.I64"}, units: []unit{
-		{"addSequencedLeaves.index", callArgsKernel(m, "PreorderedLogClient.addSequencedLeaves", "c.buildLogLeaf", 0, 1, "leafIndex", "(bStart i_ : Int)", "Int",
+		{"addSequencedLeaves.index", callArgsAnywhere(m, "PreorderedLogClient.addSequencedLeaves", ".buildLogLeaf", 0, 1, "", 1, "leafIndex", "(bStart i_ : Int)", "Int",
 			Spec{Kind: "i64", Repl: map[string]string{"b.Start": "bStart"}})},
 		{"addSequencedLeaves.retry", retrySwitchTable(m, "PreorderedLogClient.addSequencedLeaves", "retryTable")},
 		{"errRetry", errRetryKind(m, "errRetryIsRetriable")},
@@ -520,16 +553,12 @@ func init() {
 		{"idHashLeafIndex.encode", callArgSources(m, "idHashLeafIndex", "binary.LittleEndian.PutUint64", "idHashLeafIndexEncode")},
 		{"verifyConsistency.order", topLevelIfConds(c, "Controller.verifyConsistency", "gateOrder")},
 		{"verifyConsistency.args", callArgSources(c, "Controller.verifyConsistency", "proof.VerifyConsistency", "verifyConsistencyArgs")},
-		{"fetchTail.range", stmtRangeKernel(c, "Controller.fetchTail", "fo := c.opts.FetcherOptions", "klog.Infof(\"%s: fetching range", "fetchTailRange",
+		{"fetchTail.range", stmtsAfterKernel(c, "Controller.fetchTail", ".opts.FetcherOptions", []string{"klog.Infof(\"%s: fetching range"}, "fetchTailRange",
 			"(startIndex endIndex : Int) (continuous : Bool) (treeSize_ begin_ : Int)", "Int × Int × Bool", "(startIndex, endIndex, continuous)",
 			Spec{Kind: "i64", Vars: map[string]string{"fo.StartIndex": "startIndex", "fo.EndIndex": "endIndex", "fo.Continuous": "continuous"}})},
 		{"fetchTail.uptodate", condKernel(c, "Controller.fetchTail", []string{"sth.TreeSize <= begin"}, "fetchTailUpToDate", "(sthSize begin_ : Int)",
 			Spec{Kind: "u64", Repl: map[string]string{"sth.TreeSize": "sthSize"}})},
-		{"fetchTail.begin", condKernel(c, "Controller.fetchTail", []string{"int64(begin) > fo.StartIndex"}, "fetchTailBeginWins", "(begin_ startIndex : Int)",
-			Spec{Kind: "i64", Repl: map[string]string{"fo.StartIndex": "startIndex"}})},
-		{"fetchTail.negStart", condKernel(c, "Controller.fetchTail", []string{"fo.StartIndex < 0"}, "fetchTailNegStart", "(startIndex : Int)",
-			Spec{Kind: "i64", Repl: map[string]string{"fo.StartIndex": "startIndex"}})},
-		{"verifyConsistency.empty", condKernel(c, "Controller.verifyConsistency", []string{"treeSize == 0"}, "gateSkipsEmpty", "(treeSize_ : Int)",
+		{"verifyConsistency.empty", guardKernel(c, "Controller.verifyConsistency", []string{"treeSize == 0"}, "gateSkipsEmpty", "(treeSize_ : Int)",
 			Spec{Kind: "u64"})},
 		{"runSubmitter.end", assignKernel(c, "Controller.runSubmitter", "end", "submitEnd", "(bStart n : Int)", "Int",
 			Spec{Kind: "i64", Repl: map[string]string{"b.Start": "bStart", "len(b.Entries)": "n"}})},
